@@ -203,4 +203,84 @@ func init() {
 			h.count("c02shared_cases", 1)
 		}
 	})
+	// C12FROZEN: "closing a Buffer ... leaves its contents readable": what Slice/Size return once Close has returned does not
+	// change any more - in particular not when a cooldown timer of the cleaner that was pending at Close expires afterwards
+	// (changes missed during the cooldown window, forced trims of FixedBufferCleaner included, are not caught up on a closed
+	// Buffer).
+	register("C12FROZEN", func(h *hctx) {
+		for i := 0; i < h.n; i++ {
+			d := time.Duration(30+h.rng.Intn(30)) * time.Millisecond
+			fixed := i%3 != 2
+			b := new(Buffer)
+			cfg := &CleanerConfig{Cleaner: DefaultCleaner, Cooldown: d}
+			if fixed {
+				cfg.Cleaner = FixedBufferCleaner(3, 1+h.rng.Intn(2), nil)
+			}
+			*fld[*CleanerConfig](b, "cleaner") = cfg
+			ncons := h.rng.Intn(3)
+			if !fixed && ncons == 0 {
+				ncons = 1
+			}
+			var cs []Consumer
+			for k := 0; k < ncons; k++ {
+				c, err := b.NewConsumer()
+				if err != nil {
+					h.line("MONITOR C12 frozen case %d: NewConsumer failed: %v", i, err)
+					return
+				}
+				cs = append(cs, c)
+			}
+			// the first change runs a cleanup cycle and opens the cooldown window; everything below lands inside it
+			_ = b.Put(context.Background(), 0)
+			time.Sleep(d / 10) // the cleaner goroutine gets to see each change (it is what records "missed during the cooldown")
+			n := 5 + h.rng.Intn(6)
+			for k := 1; k <= n; k++ {
+				_ = b.Put(context.Background(), k)
+			}
+			for _, c := range cs {
+				m := 1 + h.rng.Intn(n)
+				for k := 0; k < m; k++ {
+					if _, err := c.Get(context.Background()); err != nil {
+						break
+					}
+				}
+				_ = c.Commit()
+			}
+			time.Sleep(d / 10)
+			order := h.rng.Intn(2)
+			if order == 0 {
+				for _, c := range cs {
+					_ = c.Close()
+				}
+			}
+			cerr := make(chan error, 1)
+			go func() { cerr <- b.Close() }()
+			select {
+			case <-cerr:
+			case <-time.After(5 * time.Second):
+				h.line("MONITOR C12 frozen case %d: Buffer.Close did not return within 5 s (nothing uncommitted, no Get blocked)", i)
+				return
+			}
+			s0 := b.Slice()
+			n0 := b.Size()
+			time.Sleep(2*d + 40*time.Millisecond)
+			s1 := b.Slice()
+			n1 := b.Size()
+			same := len(s0) == len(s1) && n0 == n1 && n0 == len(s0)
+			if same {
+				for k := range s0 {
+					if s0[k] != s1[k] {
+						same = false
+					}
+				}
+			}
+			if !same {
+				h.line("MONITOR C12 the contents of a closed Buffer changed after Close had returned: Slice %v (Size %d) right after Close, %v (Size %d) %v later (cleaner cooldown %v, fixed=%v, %d consumers, case %d)", s0, n0, s1, n1, 2*d+40*time.Millisecond, d, fixed, ncons, i)
+			}
+			h.count("c12frozen_cases", 1)
+			if fixed {
+				h.count("c12frozen_fixed", 1)
+			}
+		}
+	})
 }
